@@ -1,3 +1,4 @@
 import DeadpoolVerif.Model.Sem
 import DeadpoolVerif.Model.Managed
 import DeadpoolVerif.Model.Unmanaged
+import DeadpoolVerif.Model.PgConfig
